@@ -336,6 +336,10 @@ def case_backend(c):
     data = None
     if c['with_data']:
         data = np.arange(k * n, dtype=float).reshape(k, n)
+    if c.get('q'):
+        # (sub-box) both quantities carry units, in non-base units
+        from astropy import units as _u
+        obs, sr = (obs * 1e3) * _u.ms, (sr / 1e6) * _u.MHz
     try:
         # same deterministic history as in _mk_frame (opposite orientation first)
         stg.Frame.from_backend_params(fchans=n, obs_length=obs, sample_rate=sr, num_branches=P, fftlength=N,
@@ -360,7 +364,14 @@ def case_backend(c):
         V('dt', 'dt=%r exact=%r' % (fr.dt, float(dt_x)))
     if fr.tchans != k or pd['tchans'] != k:
         V('tchans', 'tchans=%r/%r expected %d for obs_length=(%d+%s)*dt' % (fr.tchans, pd['tchans'], k, k, c['frac']))
-    if pd['df'] != fr.df or pd['dt'] != fr.dt:
+    from astropy import units as _u2
+    pdf = pd['df'].to(_u2.Hz).value if hasattr(pd['df'], 'to') else pd['df']
+    pdt = pd['dt'].to(_u2.s).value if hasattr(pd['dt'], 'to') else pd['dt']
+    if c.get('q'):
+        # unit-carrying results: the same quantities within rounding of the conversion
+        if not (close_ulps(pdf, F(fr.df), float(fr.df), 4) and close_ulps(pdt, F(fr.dt), float(fr.dt), 4)):
+            V('param_dict', 'params_from_backend (%r, %r) disagrees with the frame (%r, %r)' % (pd['df'], pd['dt'], fr.df, fr.dt))
+    elif pdf != fr.df or pdt != fr.dt:
         V('param_dict', 'params_from_backend disagrees with the frame')
     if fr.tchans == k:
         _check_axes(fr, n, k, c['asc'], V)
@@ -409,6 +420,7 @@ def run(ctx):
                                         fch1 = 6e9 if 6e9 / (sr / P / N) <= 2.0**36 else 1e3
                                         be.append(dict(sample_rate=sr, num_branches=P, fftlength=N, int_factor=I,
                                                        k=k, frac=frac, fchans=n, asc=asc, with_data=wd, fch1=fch1))
+    be += [dict(b, q=True) for b in be if b['fchans'] == 5 and b['k'] == 3]
     ctx.pmap(case_backend, be)
     return ctx.finish(
         rule='complete Cartesian product of (fchans, tchans, df, dt, fch1 with fch1/df<=2^36, orientation, '
